@@ -111,7 +111,7 @@ struct fault { int kind; int which; long k; int err; };   /* kind 0 none, 1 allo
 static struct fault plan[2]; static int n_plan;
 static const int errnos[4] = { EPERM, EBADF, ENOMEM, EAGAIN };
 static const char *const errno_names[4] = { "EPERM", "EBADF", "ENOMEM", "EAGAIN" };
-#define ALLOC_MARGIN 2
+static int alloc_margin, sys_margin;   /* -P margin=N: extra positions beyond what the fault-free run reaches (a first fault can lengthen the path) */
 
 static int armed_once;
 static void ARM(void)
@@ -188,7 +188,14 @@ static void segv_handler(int sig, siginfo_t *si, void *ucv)
 	}
 	char fn[128] = "?", key[200];
 	void *pc = (void *)uc->uc_mcontext.gregs[REG_RIP];
-	__sanitizer_symbolize_pc(pc, "%f", fn, sizeof fn);
+	/* symbolizing is slow (external symbolizer): remember the few pcs seen */
+	static struct { void *pc; char fn[128]; } cache[32]; static int n_cache; int ci;
+	for (ci = 0; ci < n_cache; ci++) if (cache[ci].pc == pc) break;
+	if (ci < n_cache) snprintf(fn, sizeof fn, "%s", cache[ci].fn);
+	else {
+		__sanitizer_symbolize_pc(pc, "%f", fn, sizeof fn);
+		if (n_cache < 32) { cache[n_cache].pc = pc; snprintf(cache[n_cache].fn, sizeof cache[n_cache].fn, "%s", fn); n_cache++; }
+	}
 	snprintf(key, sizeof key, "crash:SIGSEGV:%s", fn);
 	mc_fail(key, "SIGSEGV at address %p in %s during %s", si->si_addr, fn, locks_current_api());
 	siglongjmp(end_jmp, 3);
@@ -333,11 +340,11 @@ static int decode_fault(const struct scount *c, int idx, struct fault *f)
 	memset(f, 0, sizeof *f);
 	if (idx == 0) return 0;
 	idx--;
-	long na = c->allocs + ALLOC_MARGIN;
+	long na = c->allocs + alloc_margin;
 	if (idx < na) { f->kind = 1; f->k = idx + 1; return 1; }
 	idx -= na;
 	for (int s = 0; s < SF_N; s++) {
-		long n = (c->sys[s] + 1) * 4;
+		long n = (c->sys[s] + sys_margin) * 4;
 		if (idx < n) { f->kind = 2; f->which = s; f->k = idx / 4 + 1; f->err = idx % 4; return 1; }
 		idx -= n;
 	}
@@ -405,6 +412,7 @@ static void init(void)
 	snprintf(path_resolv, sizeof path_resolv, "/proc/self/fd/%d", fd_resolv);
 	snapshot_fds();
 	if (NSCEN > 256) abort();
+	sys_margin = mc_param("margin", 0); alloc_margin = 2 * sys_margin;
 	/* warm-up: run every scenario fault-free three times; one-time
 	 * initialisations happen in run 1, counts are taken from run 2 and
 	 * must be identical in run 3 */
@@ -419,8 +427,8 @@ static void init(void)
 		}
 		sc[s] = a;
 		sc[s].unstable = a.allocs != b.allocs || memcmp(a.sys, b.sys, sizeof a.sys) != 0;
-		int K = 1 + (int)a.allocs + ALLOC_MARGIN;
-		for (int i = 0; i < SF_N; i++) K += (int)(a.sys[i] + 1) * 4;
+		int K = 1 + (int)a.allocs + alloc_margin;
+		for (int i = 0; i < SF_N; i++) K += (int)(a.sys[i] + sys_margin) * 4;
 		sc[s].K = K;
 		if (mc_param("list", 0)) {
 			fprintf(stderr, "scenario %3d %-28s allocs=%ld K=%d %.2f ms/run%s\n", s, scen[s].name, a.allocs, K, (real_now() - t_start) * 1000 / 3, sc[s].unstable ? " UNSTABLE" : "");
@@ -432,6 +440,27 @@ static void init(void)
 		for (int i = 0; i < n_api_names; i++) fprintf(stderr, " %s", api_names[i]);
 		fprintf(stderr, "\n");
 	}
+	if (mc_param("bench", -1) >= 0) {
+		int bs = mc_param("bench", 0); struct timespec c0, c1; quiet = 1; locks_set_quiet(1);
+		clock_t k0 = clock();
+		syscall(SYS_clock_gettime, CLOCK_PROCESS_CPUTIME_ID, &c0);
+		for (int i = 0; i < 200; i++) run_scenario(bs);
+		syscall(SYS_clock_gettime, CLOCK_PROCESS_CPUTIME_ID, &c1); (void)k0;
+		fprintf(stderr, "bench %s: %.3f ms cpu/run\n", scen[bs].name, ((c1.tv_sec - c0.tv_sec) + (c1.tv_nsec - c0.tv_nsec) * 1e-9) * 1000 / 200);
+		syscall(SYS_clock_gettime, CLOCK_PROCESS_CPUTIME_ID, &c0);
+		for (int i = 0; i < 200; i++) { locks_begin_execution(); sf_reset(); }
+		syscall(SYS_clock_gettime, CLOCK_PROCESS_CPUTIME_ID, &c1);
+		fprintf(stderr, "bench locks_begin: %.3f ms cpu/run\n", ((c1.tv_sec - c0.tv_sec) + (c1.tv_nsec - c0.tv_nsec) * 1e-9) * 1000 / 200);
+		syscall(SYS_clock_gettime, CLOCK_PROCESS_CPUTIME_ID, &c0);
+		for (int i = 0; i < 200; i++) close_leaked_fds();
+		syscall(SYS_clock_gettime, CLOCK_PROCESS_CPUTIME_ID, &c1);
+		fprintf(stderr, "bench close_leaked_fds: %.3f ms cpu/run\n", ((c1.tv_sec - c0.tv_sec) + (c1.tv_nsec - c0.tv_nsec) * 1e-9) * 1000 / 200);
+		syscall(SYS_clock_gettime, CLOCK_PROCESS_CPUTIME_ID, &c0);
+		for (int i = 0; i < 200; i++) { struct event_base *b = mkbase(0, 0, 1); event_base_free(b); }
+		syscall(SYS_clock_gettime, CLOCK_PROCESS_CPUTIME_ID, &c1);
+		fprintf(stderr, "bench mkbase+free: %.3f ms cpu/run\n", ((c1.tv_sec - c0.tv_sec) + (c1.tv_nsec - c0.tv_nsec) * 1e-9) * 1000 / 200);
+		quiet = 0; locks_set_quiet(0);
+	}
 	if (mc_worker() == 0 && !mc_replaying()) {
 		MC_COUNTN("catalogue_scenarios", NSCEN);
 		MC_COUNTN("catalogue_distinct_api_functions", n_api_names);
@@ -440,6 +469,6 @@ static void init(void)
 
 int main(int argc, char **argv)
 {
-	struct mc_config cfg = { .property = "C08", .body = body, .init = init, .default_split = 2 };
+	struct mc_config cfg = { .property = "C08", .body = body, .init = init, .default_split = 1 };
 	return mc_main(argc, argv, &cfg);
 }
